@@ -5,6 +5,8 @@
    on the whole small-scope case space, and exports every case with the expected In-calls per round.
 2. The real worker.work is run on a real file for the exported cases (all in thorough, a seeded
    sample in quick) and its In-calls are compared with the specification's expectation.
+5. Compressed input: real .lz4 files read by the real worker from every saved line-end offset (lz4 cannot seek: the worker reads
+   forward); what lies beyond the saved offset must be the specification's lines.
 4. End to end: a sample of the cases is read by the real file plugin inside a real pipeline (limit and cut-off in the
    pipeline settings, raw decoder); (message, offset) at the output must be the specification's lines.
 3. Several files on ONE worker goroutine (specs/WorkerTails.tla: the held-back tail of a file is the file's own copy,
@@ -63,7 +65,7 @@ def run(ctx):
                 "(counted by the harness)." % (total, "all" if ctx.exhaustive else "seeded sample of %d" % len(cases)))
     for c in cases[:3]:
         ctx.sample(c)
-    ctx.assumptions += ["regular (non-lz4) files; appends happen only while the job is at EOF (between read rounds)",
+    ctx.assumptions += ["appends happen only while the job is at EOF (between read rounds); lz4 files: whole content present, resume at line ends, no size limit",
                         "end to end (file input + Pipeline.In with the same limit, raw decoder): cases without resume/skip, the whole content written before the start"]
     recs = []
     for m in r["mismatches"] or []:
@@ -95,4 +97,28 @@ def run(ctx):
         ctx.extra["end_to_end_cases_with_a_line_exactly_at_the_limit"] = r2["at_limit"]
         for m in r2["mismatches"] or []:
             recs.append({"kind": m["kind"], "case": m["case"], "round": -1, "want": m.get("want"), "got": m.get("got"), "panic": "", "extra": None})
+    # 5. compressed files: resume by reading forward (no seek), real .lz4 files, every saved offset at a line end
+    lzpool = [c for c in (res.printed if not ctx.replay else cases) if c.get("resume", 0) == 0 and not c.get("skip") and c["M"] == 0
+              and c.get("op", "direct") == "direct" and sum(len(x) for x in c["segs"]) >= 3]
+    if not ctx.replay:
+        ctx.rng.shuffle(lzpool)
+        lzpool = lzpool[:1200 if ctx.tier == "thorough" else 150]
+    if lzpool:
+        p3 = os.path.join(ctx.scratch, "c06_lz4_cases.ndjson")
+        with open(p3, "w") as f:
+            for c in lzpool:
+                f.write(json.dumps(c) + "\n")
+        out3 = os.path.join(ctx.scratch, "c06_lz4_out.json")
+        rc, txt = ctx.run_bin(binary, "^TestVerifC06Lz4$", env={"VERIF_CASES": p3, "VERIF_OUT": out3}, timeout=3000)
+        if rc != 0 or not os.path.exists(out3):
+            raise vlib.Infra("C06 lz4 harness failed rc=%s:\n%s" % (rc, txt[-3000:]))
+        r3 = json.load(open(out3))
+        ctx.evaluations += r3["executed"]
+        ctx.extra["lz4_runs"] = r3["executed"]
+        ctx.extra["lz4_runs_resumed_from_a_saved_offset"] = r3["resumed"]
+        if r3["resumed"] == 0:
+            raise vlib.Infra("no lz4 run resumed from a saved offset")
+        for m in r3["mismatches"] or []:
+            recs.append({"kind": m["kind"], "case": m["case"], "round": -1, "want": m.get("want"), "got": m.get("got"), "panic": m.get("panic", ""),
+                         "extra": {"saved_offset": m.get("saved")}})
     ctx.classify(recs)
